@@ -1,0 +1,433 @@
+//go:build verif
+
+package lossy
+
+import (
+	"github.com/deepteams/webp/internal/bitio"
+	"github.com/deepteams/webp/internal/dsp"
+)
+
+// Verification hooks for the reconstruction model of property C06
+// (Lean: Webp.Impl.VP8Recon). They only *call* the existing unexported
+// functions on hand-built encoder/decoder values; no codec behaviour is added.
+
+// VerifQuantIn is the part of the encoder state that determines the
+// dequantisation factors and the quantiser fields of the frame header.
+type VerifQuantIn struct {
+	NumSegs int
+	Quant   [NumMBSegments]int  // enc.dqm[i].Quant
+	DQ      [5]int              // dqY1DC, dqY2DC, dqY2AC, dqUVDC, dqUVAC
+	Stale   [NumMBSegments]int8 // segmentHdr.Quantizer before buildSegmentHeader
+}
+
+// VerifQuantOut: the encoder's factors (setupSegment), and what the real
+// decoder derives from the header the real encoder writes for that state.
+type VerifQuantOut struct {
+	Enc        [NumMBSegments][6]int // y1dc y1ac y2dc y2ac uvdc uvac
+	UseSegment bool
+	Absolute   bool
+	SegQ       [NumMBSegments]int
+	Dec        [NumMBSegments][6]int
+}
+
+func verifMat(m *QuantMatrix) [6]int {
+	return [6]int{m.Y1Mat[0], m.Y1Mat[1], m.Y2Mat[0], m.Y2Mat[1], m.UVMat[0], m.UVMat[1]}
+}
+
+// VerifQuantRoundTrip runs setupSegment / buildSegmentHeader /
+// writeSegmentHeader / writeQuantParams through a real BoolWriter and parses
+// the bytes with parseSegmentHeader / ParseQuant through a real BoolReader.
+func VerifQuantRoundTrip(in VerifQuantIn) VerifQuantOut {
+	var out VerifQuantOut
+	enc := &VP8Encoder{}
+	enc.dqY1DC, enc.dqY2DC, enc.dqY2AC, enc.dqUVDC, enc.dqUVAC = in.DQ[0], in.DQ[1], in.DQ[2], in.DQ[3], in.DQ[4]
+	for i := 0; i < NumMBSegments; i++ {
+		setupSegment(enc, i, in.Quant[i])
+		s := &enc.dqm[i]
+		out.Enc[i] = [6]int{s.Y1.DCQuant, s.Y1.Quant, s.Y2.DCQuant, s.Y2.Quant, s.UV.DCQuant, s.UV.Quant}
+	}
+	enc.segmentHdr.Quantizer = in.Stale
+	enc.numSegments = in.NumSegs
+	enc.buildSegmentHeader(in.NumSegs)
+	for i := range enc.proba.Segments {
+		enc.proba.Segments[i] = 255
+	}
+	bw := bitio.NewBoolWriter(64)
+	enc.writeSegmentHeader(bw)
+	enc.writeQuantParams(bw)
+	data := append([]byte(nil), bw.Finish()...)
+
+	dec := &Decoder{}
+	dec.segHdr.AbsoluteDelta = false
+	dec.br = bitio.NewBoolReader(data)
+	_ = dec.parseSegmentHeader()
+	ParseQuant(dec.br, &dec.segHdr, dec.dqm[:])
+	out.UseSegment = dec.segHdr.UseSegment
+	out.Absolute = dec.segHdr.AbsoluteDelta
+	for i := 0; i < NumMBSegments; i++ {
+		out.SegQ[i] = int(dec.segHdr.Quantizer[i])
+		out.Dec[i] = verifMat(&dec.dqm[i])
+	}
+	return out
+}
+
+// VerifParseQuant feeds an arbitrary quantiser header (also ones the encoder
+// never writes: delta mode, per-segment values with use_segment) through a
+// real BoolWriter/BoolReader into parseSegmentHeader + ParseQuant.
+func VerifParseQuant(useSegment, absolute bool, segQ [NumMBSegments]int, base int, dq [5]int) [NumMBSegments][6]int {
+	bw := bitio.NewBoolWriter(64)
+	b2i := func(b bool) int {
+		if b {
+			return 1
+		}
+		return 0
+	}
+	bw.PutBitUniform(b2i(useSegment))
+	if useSegment {
+		bw.PutBitUniform(0) // update_map
+		bw.PutBitUniform(1) // update_data
+		bw.PutBitUniform(b2i(absolute))
+		for i := 0; i < NumMBSegments; i++ {
+			bw.PutSignedBits(segQ[i], 7)
+		}
+		for i := 0; i < NumMBSegments; i++ {
+			bw.PutBitUniform(0)
+		}
+	}
+	bw.PutBits(uint32(base), 7)
+	for i := 0; i < 5; i++ {
+		bw.PutSignedBits(dq[i], 4)
+	}
+	data := append([]byte(nil), bw.Finish()...)
+	dec := &Decoder{}
+	dec.br = bitio.NewBoolReader(data)
+	_ = dec.parseSegmentHeader()
+	ParseQuant(dec.br, &dec.segHdr, dec.dqm[:])
+	var out [NumMBSegments][6]int
+	for i := 0; i < NumMBSegments; i++ {
+		out[i] = verifMat(&dec.dqm[i])
+	}
+	return out
+}
+
+// VerifToken is one recorded (bit, probability) decision.
+type VerifToken struct{ Bit, Prob uint8 }
+
+func verifTokens(tb *TokenBuffer) []VerifToken {
+	var out []VerifToken
+	for _, p := range tb.pages {
+		for i := 0; i < p.count; i++ {
+			out = append(out, VerifToken{p.tokens[i].Bit, p.tokens[i].Prob})
+		}
+	}
+	return out
+}
+
+// VerifBlockTokens records one block with the real RecordCoeffs (default
+// probabilities), codes the tokens with a real BoolWriter and reads them back
+// with the real getCoeffsInline through a real BoolReader. out starts as
+// outInit (16 values). Returns the tokens, getCoeffsInline's return value and
+// the coefficient array.
+func VerifBlockTokens(levels [16]int16, nCoeffs, ctxType, first, ctx, dq0, dq1 int, outInit [16]int16) ([]VerifToken, int, [16]int16) {
+	var proba Proba
+	ResetProba(&proba)
+	var tb TokenBuffer
+	tb.Init(1)
+	tb.RecordCoeffs(levels[:], nCoeffs, ctxType, &proba, first, ctx)
+	toks := verifTokens(&tb)
+	bw := bitio.NewBoolWriter(64)
+	tb.EmitTokens(bw)
+	data := append([]byte(nil), bw.Finish()...)
+	br := bitio.NewBoolReader(data)
+	out := outInit
+	nz := getCoeffsInline(br, &proba.BandsPtr[ctxType], ctx, dq0, dq1, first, out[:])
+	return toks, nz, out
+}
+
+// VerifMBIn is one macroblock as the encoder decided it (levels in
+// MBEncInfo.Coeffs layout: 16 Y blocks, 4 U, 4 V, the Y2 block at 384).
+type VerifMBIn struct {
+	IsI4   bool
+	Levels [400]int16
+}
+
+// VerifMBOut is what the real decoder holds after decodeMB.
+type VerifMBOut struct {
+	Skip      bool
+	Coeffs    [384]int16
+	NonZeroY  uint32
+	NonZeroUV uint32
+}
+
+// VerifFrameTokens is the result of VerifTokenFrame.
+type VerifFrameTokens struct {
+	Tokens     []VerifToken
+	NumSkip    int
+	MBs        []VerifMBOut
+	EncTopNz   []uint32 // enc.topNz after the token pass
+	EncTopNzDC []uint8
+	DecTopNz   []uint8 // dec.mbInfo[x+1].Nz after parsing
+	DecTopNzDC []uint8
+	EOF        bool
+}
+
+// verifZigzagCount is "one past the last non-zero level in zig-zag order,
+// looking at positions >= first" (what QuantizeCoeffs returns).
+func verifZigzagCount(levels []int16, first int) int {
+	for n := 15; n >= first; n-- {
+		if levels[KZigzag[n]] != 0 {
+			return n + 1
+		}
+	}
+	return 0
+}
+
+// VerifTokenFrame fills mbInfo of a mbW x mbH encoder with the given
+// macroblocks (NzY/NzUV/NzDC = exact zig-zag counts, Skip as encodeFrame
+// computes it), runs the real token pass rerecordAllTokens (skip handling,
+// recordMBTokens, non-zero contexts), codes the tokens with a real BoolWriter
+// and parses them with the real decodeMB (parseResiduals, getCoeffsInline,
+// skip path) using dequantisation factors q.
+func VerifTokenFrame(mbW, mbH int, mbs []VerifMBIn, q [6]int) VerifFrameTokens {
+	n := mbW * mbH
+	enc := &VP8Encoder{mbW: mbW, mbH: mbH}
+	ResetProba(&enc.proba)
+	enc.mbInfo = make([]MBEncInfo, n)
+	enc.topNz = make([]uint32, mbW)
+	enc.topNzDC = make([]uint8, mbW)
+	enc.tokens.Init(n)
+	var res VerifFrameTokens
+	for i := 0; i < n; i++ {
+		info := &enc.mbInfo[i]
+		in := &mbs[i]
+		info.Coeffs = in.Levels
+		first := 0
+		if in.IsI4 {
+			info.MBType = 1
+		} else {
+			first = 1
+		}
+		var nzY, nzUV uint32
+		for b := 0; b < 16; b++ {
+			c := verifZigzagCount(info.Coeffs[b*16:b*16+16], first)
+			info.NzY[b] = uint8(c)
+			if c > 0 {
+				nzY |= 1 << uint(b)
+			}
+		}
+		for b := 0; b < 8; b++ {
+			c := verifZigzagCount(info.Coeffs[(16+b)*16:(16+b)*16+16], 0)
+			info.NzUV[b] = uint8(c)
+			if c > 0 {
+				nzUV |= 1 << uint(b)
+			}
+		}
+		if !in.IsI4 {
+			c := verifZigzagCount(info.Coeffs[384:400], 0)
+			info.NzDC = uint8(c)
+			if c > 0 {
+				nzY |= 1 << 24
+			}
+		}
+		info.NonZeroY, info.NonZeroUV = nzY, nzUV
+		info.Skip = (info.NonZeroY == 0 && info.NonZeroUV == 0)
+		if info.Skip {
+			res.NumSkip++
+		}
+	}
+	enc.numSkip = res.NumSkip
+	enc.rerecordAllTokens()
+	res.Tokens = verifTokens(&enc.tokens)
+	res.EncTopNz = append([]uint32(nil), enc.topNz...)
+	res.EncTopNzDC = append([]uint8(nil), enc.topNzDC...)
+
+	bw := bitio.NewBoolWriter(1024)
+	enc.tokens.EmitTokens(bw)
+	data := append([]byte(nil), bw.Finish()...)
+
+	dec := &Decoder{mbW: mbW, mbH: mbH}
+	ResetProba(&dec.proba)
+	dec.dqm[0] = QuantMatrix{Y1Mat: [2]int{q[0], q[1]}, Y2Mat: [2]int{q[2], q[3]}, UVMat: [2]int{q[4], q[5]}}
+	dec.mbInfo = make([]MB, mbW+1)
+	dec.mbData = make([]MBData, mbW)
+	dec.useSkipProba = res.NumSkip > 0
+	br := bitio.NewBoolReader(data)
+	res.MBs = make([]VerifMBOut, n)
+	for y := 0; y < mbH; y++ {
+		dec.mbY = y
+		for x := 0; x < mbW; x++ {
+			dec.mbX = x
+			block := &dec.mbData[x]
+			info := &enc.mbInfo[y*mbW+x]
+			block.IsI4x4 = info.MBType == 1
+			block.Skip = info.Skip
+			block.Segment = 0
+			if err := dec.decodeMB(br); err != nil {
+				res.EOF = true
+			}
+			res.MBs[y*mbW+x] = VerifMBOut{Skip: dec.useSkipProba && block.Skip, Coeffs: block.Coeffs, NonZeroY: block.NonZeroY, NonZeroUV: block.NonZeroUV}
+		}
+		dec.initScanline()
+	}
+	for x := 0; x < mbW; x++ {
+		res.DecTopNz = append(res.DecTopNz, dec.mbInfo[x+1].Nz)
+		res.DecTopNzDC = append(res.DecTopNzDC, dec.mbInfo[x+1].NzDC)
+	}
+	return res
+}
+
+// VerifQuantize runs the real QuantizeCoeffs (SIMD where the build has it),
+// its pure-Go twin, the real DequantCoeffs and its twin on one block.
+// kind: 0 Y1, 1 Y2, 2 UV (selects the bias row; sharpening only for Y1).
+func VerifQuantize(in [16]int16, dcQuant, acQuant, kind, first int) (levels [16]int16, nz int, levelsGo [16]int16, nzGo int, deq, deqGo [16]int16) {
+	var sq SegmentQuant
+	initSegmentQuant(&sq, dcQuant, acQuant, kind)
+	if kind == 0 {
+		for i := 0; i < 16; i++ {
+			qq := sq.Quant
+			if i == 0 {
+				qq = sq.DCQuant
+			}
+			sq.Sharpen[i] = int16((kFreqSharpening[i] * qq) >> 11)
+		}
+	}
+	src := in
+	nz = QuantizeCoeffs(src[:], levels[:], &sq, first)
+	src = in
+	nzGo = quantizeCoeffsGo(src[:], levelsGo[:], &sq, first)
+	DequantCoeffs(levels[:], deq[:], &sq)
+	dequantCoeffsGo(levels[:], deqGo[:], &sq)
+	return
+}
+
+// VerifDequant runs the real DequantCoeffs on arbitrary levels.
+func VerifDequant(levels [16]int16, dcQuant, acQuant int) (out [16]int16) {
+	sq := SegmentQuant{Quant: acQuant, DCQuant: dcQuant}
+	DequantCoeffs(levels[:], out[:], &sq)
+	return
+}
+
+// VerifTrellis runs the real TrellisQuantizeBlock with default probabilities.
+func VerifTrellis(in [16]int16, dcQuant, acQuant, kind, first, ctxType, ctx, lambda int) (levels [16]int16, nz int) {
+	var sq SegmentQuant
+	initSegmentQuant(&sq, dcQuant, acQuant, kind)
+	var proba Proba
+	ResetProba(&proba)
+	src := in
+	nz = TrellisQuantizeBlock(src[:], levels[:], &sq, first, ctxType, ctx, &proba, lambda)
+	return
+}
+
+// VerifDecTransform applies the decoder's doTransform (dispatch on the 2-bit
+// code) to a 4x4 block whose prediction is pred (16 samples, raster).
+func VerifDecTransform(code int, coeffs [16]int16, pred [16]byte) (out [16]byte) {
+	buf := make([]byte, 4*BPS)
+	for i := 0; i < 16; i++ {
+		buf[(i/4)*BPS+i%4] = pred[i]
+	}
+	doTransform(uint32(code)<<30, coeffs[:], buf)
+	for i := 0; i < 16; i++ {
+		out[i] = buf[(i/4)*BPS+i%4]
+	}
+	return
+}
+
+// VerifEncTransform applies the encoder's in-place ITransformDirect.
+func VerifEncTransform(coeffs [16]int16, pred [16]byte) (out [16]byte) {
+	buf := make([]byte, 4*BPS)
+	for i := 0; i < 16; i++ {
+		buf[(i/4)*BPS+i%4] = pred[i]
+	}
+	dsp.ITransformDirect(buf, coeffs[:], buf, false)
+	for i := 0; i < 16; i++ {
+		out[i] = buf[(i/4)*BPS+i%4]
+	}
+	return
+}
+
+// VerifDecUVTransform applies doUVTransform (bits = the plane's byte of codes)
+// to an 8x8 plane; VerifEncUVTransform the encoder's four ITransformDirect.
+func VerifDecUVTransform(bits uint32, coeffs [64]int16, pred [64]byte) (out [64]byte) {
+	buf := make([]byte, 8*BPS)
+	for i := 0; i < 64; i++ {
+		buf[(i/8)*BPS+i%8] = pred[i]
+	}
+	doUVTransform(bits, coeffs[:], buf)
+	for i := 0; i < 64; i++ {
+		out[i] = buf[(i/8)*BPS+i%8]
+	}
+	return
+}
+
+func VerifEncUVTransform(coeffs [64]int16, pred [64]byte) (out [64]byte) {
+	buf := make([]byte, 8*BPS)
+	for i := 0; i < 64; i++ {
+		buf[(i/8)*BPS+i%8] = pred[i]
+	}
+	for by := 0; by < 2; by++ {
+		for bx := 0; bx < 2; bx++ {
+			k := by*2 + bx
+			off := by*4*BPS + bx*4
+			dsp.ITransformDirect(buf[off:], coeffs[k*16:k*16+16], buf[off:], false)
+		}
+	}
+	for i := 0; i < 64; i++ {
+		out[i] = buf[(i/8)*BPS+i%8]
+	}
+	return
+}
+
+// VerifWHT runs dsp.TransformWHT and returns the 16 per-block DC values.
+func VerifWHT(in [16]int16) (out [16]int16) {
+	var buf [256]int16
+	dsp.TransformWHT(in[:], buf[:])
+	for i := 0; i < 16; i++ {
+		out[i] = buf[i*16]
+	}
+	return
+}
+
+// VerifPred16 runs the decoder's table entry and the encoder's direct wrapper
+// of the 16x16 predictor `mode` (0..6) on the same borders.
+func VerifPred16(mode int, top [16]byte, left [16]byte, tl byte) (dec, enc [256]byte) {
+	run := func(direct bool) (out [256]byte) {
+		buf := make([]byte, YUVSize)
+		for i := 0; i < 16; i++ {
+			buf[YOff-BPS+i] = top[i]
+			buf[YOff-1+i*BPS] = left[i]
+		}
+		buf[YOff-BPS-1] = tl
+		if direct {
+			dsp.PredLuma16Direct(mode, buf, YOff)
+		} else {
+			dsp.PredLuma16[mode](buf, YOff)
+		}
+		for i := 0; i < 256; i++ {
+			out[i] = buf[YOff+(i/16)*BPS+i%16]
+		}
+		return
+	}
+	return run(false), run(true)
+}
+
+// VerifPred8 is VerifPred16 for the 8x8 chroma predictors.
+func VerifPred8(mode int, top [8]byte, left [8]byte, tl byte) (dec, enc [64]byte) {
+	run := func(direct bool) (out [64]byte) {
+		buf := make([]byte, YUVSize)
+		for i := 0; i < 8; i++ {
+			buf[UOff-BPS+i] = top[i]
+			buf[UOff-1+i*BPS] = left[i]
+		}
+		buf[UOff-BPS-1] = tl
+		if direct {
+			dsp.PredChroma8Direct(mode, buf, UOff)
+		} else {
+			dsp.PredChroma8[mode](buf, UOff)
+		}
+		for i := 0; i < 64; i++ {
+			out[i] = buf[UOff+(i/8)*BPS+i%8]
+		}
+		return
+	}
+	return run(false), run(true)
+}
